@@ -245,6 +245,12 @@ var variants = []variant{
 	{"field-appended", true, func(y string, _ *e2e.Agent) string {
 		return strings.Replace(y, "log, class]", "log, class, extra1]", 1)
 	}},
+	// a field is added to the schema together with a transform that fills it for some records only: a value must never show
+	// up in a record that did not carry it (the record allocator, which survives the reload, must clear the new field too)
+	{"field-and-extraction-appended", true, func(y string, _ *e2e.Agent) string {
+		y = strings.Replace(y, "log, class]", "log, class, ticket]", 1)
+		return strings.Replace(y, "outputBufferPairs:", "  - type: extract\n    key: log\n    pattern: 'T=(?P<ticket>[A-Z0-9]+)'\noutputBufferPairs:", 1)
+	}},
 	{"invalid-yaml", false, func(y string, _ *e2e.Agent) string { return visible(y) + "\n  : : :\n- [\n" }},
 	{"unknown-field", false, func(y string, _ *e2e.Agent) string {
 		return visible(strings.Replace(y, "key: time\n    errorLabel", "key: nosuchfield\n    errorLabel", 1))
@@ -307,14 +313,18 @@ func e2eChild(c *vkit.Ctx) {
 	idx, _ := strconv.Atoi(c.Arg("idx"))
 	r := c.Rand("e2e", idx)
 	fam := []string{"steady", "reset-after-k", "late-ack", "refuse-then-recover"}[idx%4]
-	sc := e2e.GenScenario(r, fam, idx, e2e.Opt{Kinds: []string{"plain", "plain", "drop", "esc", "email"}, MaxRecs: 60})
+	sc := e2e.GenScenario(r, fam, idx, e2e.Opt{Kinds: []string{"plain", "plain", "drop", "esc", "email", "ticket"}, MaxRecs: 60})
 	// connection churn: many short connections so that descriptor numbers are reused, plus slow long ones that span reloads
 	g := &sc.Gens[0]
 	next := 100
 	for k := 0; k < 10+r.Intn(10); k++ {
 		cs := e2e.ConnSpec{ID: next, StartMs: r.Intn(60)}
 		for s := 1; s <= 1+r.Intn(4); s++ {
-			cs.Recs = append(cs.Recs, e2e.Rec{Conn: next, Seq: s, App: []string{"appA", "appB", "appC"}[r.Intn(3)], Sev: []int{6, 3}[r.Intn(2)], Host: "h1", Kind: "plain", Pad: r.Intn(40)})
+			kind := "plain"
+			if idx%len(variants) == 3 && s%2 == 1 {
+				kind = "ticket" // the run whose first reload adds the extraction: carriers and non-carriers alternate on every pipeline
+			}
+			cs.Recs = append(cs.Recs, e2e.Rec{Conn: next, Seq: s, App: []string{"appA", "appB", "appC"}[r.Intn(3)], Sev: []int{6, 3}[r.Intn(2)], Host: "h1", Kind: kind, Pad: r.Intn(40)})
 		}
 		g.Conns = append(g.Conns, cs)
 		next++
@@ -344,7 +354,7 @@ func e2eChild(c *vkit.Ctx) {
 		sc.ProcessLevel = true // run.Run with the reloader in its own process, reloaded with SIGHUP, stopped with SIGTERM
 	}
 	nReload := 2 + r.Intn(4)
-	if idx%9 == 0 {
+	if idx%len(variants) == 0 {
 		// "queued chunks of the old pipelines are taken over", deterministically: the upstream refuses connections for a while,
 		// one key set sends everything at the start (backlog in memory and on disk), one valid reload happens during the
 		// refusal, and that key set never sends again - only the take-over by the new pipelines can deliver its chunks
